@@ -4,7 +4,7 @@ INVARIANTS Emit DecoderEqualsAbstraction
 CONSTANTS
   Mode = "types"
   MaxDepth = 1
-  Rot = 10
+  Rot = 5
   LeafSet = "all"
   CtorSet = "all"
   MaxOps = 0
